@@ -121,7 +121,7 @@ Definition write_build_multi (conn : Z) (reqs : list wreq) : list packet :=
 
 Definition write_build_single (conn : Z) (w : wreq) : option packet :=
   if w_err w then None
-  else if w_bit w then Some (PRmw (-1) [w_id w])
+  else if w_bit w then Some (PRmw (- (1 + w_id w)) [w_id w])
   else if w_enc_err w then None          (* RequestError from encode_value is caught: error recorded, no packet *)
   else Some (if w_val w + w_msg w >? conn then PFrag (w_id w) else PSingle (w_id w)).
 
@@ -163,3 +163,20 @@ Fixpoint read_fragments (replies : list (bytes * bool)) (offset : Z) (acc_off : 
       if more then read_fragments rest (offset + Z.of_nat (length frag)) (offset :: acc_off) (acc ++ frag)
       else Some (rev (offset :: acc_off), acc ++ frag)
   end.
+
+(* ---- connection size negotiation: cip_driver.with_forward_open + the size field of _forward_open.
+   [ext] = _cfg["extended forward open"], [csize] = _cfg["connection_size"] (what every planner and
+   fragment loop above uses as [conn]). *)
+Record fo_state := { fo_ext : bool; fo_csize : Z }.
+(* the connection-size bits _forward_open puts into the network parameters *)
+Definition fo_size_field (st : fo_state) : Z :=
+  if fo_ext st then Z.land (fo_csize st) 65535 else Z.land (fo_csize st) 511.
+(* with_forward_open against a target that accepts or refuses each kind:
+   (attempts as (large?, size field), driver state afterwards, opened?) *)
+Definition negotiate (st : fo_state) (accept_large accept_std : bool) : list (bool * Z) * fo_state * bool :=
+  let a1 := (fo_ext st, fo_size_field st) in
+  if fo_ext st then
+    if accept_large then ([a1], st, true)
+    else let st' := {| fo_ext := false; fo_csize := 500 |} in
+         ([a1; (false, fo_size_field st')], st', accept_std)
+  else ([a1], st, accept_std).
